@@ -173,7 +173,7 @@ CONDITIONS = [
               'mutation = any single-point mutation of the quick palettes at '
               'any other site'},
     {'fn': 'mutants', 'slices': pipeline.C08_SLICES,
-     'quick_slices': pipeline.C08_QUICK_SLICES, 'quick': 110, 'thorough': 300,
+     'quick_slices': pipeline.C08_QUICK_SLICES, 'quick': 160, 'thorough': 300,
      'bound': pipeline.MUTANT_BOUND},
     {'fn': 'mutants_reach',
      'slices': [pipeline.slice_for('plain', 0, 2)],
